@@ -353,6 +353,13 @@ def c_opt_or_else(m, st, f, a):
     return call_then(m, st, clo, [], lambda m, st, s, r: r)
 
 
+@contract(r'^(std::option::|core::option::)?Option::<.*>::flatten$')
+def c_opt_flatten(m, st, f, a):
+    o = sv(a[0])
+    if disc_of(m, st, o) == 0: return none()
+    return payload0(o)
+
+
 @contract(r'^(std::option::|core::option::)?Option::<.*>::or$')
 def c_opt_or(m, st, f, a):
     return a[0] if disc_of(m, st, a[0]) == 1 else a[1]
@@ -481,6 +488,43 @@ def c_int_sat(m, st, f, a):
     zx, zy = zi(x), zi(y)
     if 'saturating_sub' in f: return IntV(z3.If(z3.ULT(zx, zy), z3.BitVecVal(0, w), zx - zy), ty)
     return IntV(z3.If(z3.ULT(zx + zy, zx), z3.BitVecVal((1 << w) - 1, w), zx + zy), ty)
+
+
+@contract(r'^([a-z_]+::)*num::<impl (u8|u16|u32|u64|usize)>::(wrapping_add_signed|checked_add_signed|saturating_add_signed|overflowing_add_signed)$')
+def c_int_add_signed(m, st, f, a):
+    """unsigned + signed of the same width (two's complement: the wrapped sum is plain bit-vector addition)"""
+    x, y = sv(a[0]), sv(a[1]); ty = x.ty; w = INT_TYPES[ty]
+    yy = IntV(y.e if not isinstance(y.e, int) else y.e & ((1 << w) - 1), ty)
+    s_ = binop('Add', x, yy)
+    if 'wrapping' in f: return s_
+    # overflow iff the mathematical result leaves [0, 2^w): y >= 0 and sum < x (carry), or y < 0 and sum > x (borrow)
+    neg = binop('Lt', IntV(y.e, y.ty), IntV(0, y.ty))
+    ovf = b_or(b_and(b_not(neg), binop('Lt', s_, x)), b_and(neg, binop('Gt', s_, x)))
+    if 'overflowing' in f: return Agg([s_, ovf])
+    o = bool_val(m, st, ovf)
+    if 'checked' in f: return none() if o else some(s_)
+    if not o: return s_
+    return IntV(0, ty) if bool_val(m, st, neg) else IntV((1 << w) - 1, ty)
+
+
+@contract(r'^([a-z_]+::)*num::<impl (u8|u16|u32|u64|usize|i32|i64|isize)>::(abs_diff|min|max|pow|is_power_of_two|leading_zeros|trailing_zeros|count_ones)$')
+def c_int_misc(m, st, f, a):
+    op = f.rsplit('::', 1)[1]
+    x = sv(a[0])
+    if op in ('min', 'max', 'abs_diff'):
+        y = sv(a[1])
+        lt = bool_val(m, st, binop('Lt', x, y))
+        if op == 'min': return x if lt else y
+        if op == 'max': return y if lt else x
+        return binop('Sub', y, x) if lt else binop('Sub', x, y)
+    if isinstance(x.e, int):
+        w = INT_TYPES[x.ty]; v = x.e & ((1 << w) - 1)
+        if op == 'is_power_of_two': return v != 0 and v & (v - 1) == 0
+        if op == 'count_ones': return IntV(bin(v).count('1'), 'u32')
+        if op == 'leading_zeros': return IntV(w - v.bit_length(), 'u32')
+        if op == 'trailing_zeros': return IntV(w if v == 0 else (v & -v).bit_length() - 1, 'u32')
+        if op == 'pow' and isinstance(sv(a[1]).e, int): return IntV((v ** sv(a[1]).e) & ((1 << w) - 1), x.ty)
+    raise Inconclusive('integer operation %s on a symbolic value' % op)
 
 
 @contract(r'^([a-z_]+::)*num::<impl (u8|u16|u32|u64|usize|i32|i64|isize)>::(checked_sub|checked_add)$')
